@@ -19,6 +19,8 @@ THOROUGH = QUICK + [
 
 
 def run(ctx):
+    if getattr(ctx, "replay_path", None):
+        return pc.replay(ctx, "C02", "s")
     n = 400000 if ctx.thorough else 40000
     rnd = [("rnd-plain", n, ["req=0:3115b50900", "req=0:3115b50900", "buslost=2"]),
            ("rnd-enh", n, ["enhanced=1", "req=0:3115b50900", "req=0:3115b50900", "buslost=2"])]
